@@ -630,7 +630,13 @@ class ExcelModel:
         f_nodes, d_nodes, dmap = dsp.function_nodes, dsp.data_nodes, dsp.dmap
         skip_nodes = {
             k for k, node in f_nodes.items()
-            if isinstance(node['function'], InvRangesAssembler)
+            if isinstance(node['function'], InvRangesAssembler) or (
+                # The inverse link of a reference (name -> cell) is not a
+                # dependency.
+                node['function'] is sh.bypass and set(node['outputs']).issubset(
+                    dsp.nodes[node['inputs'][0]].get('inv-data', ())
+                )
+            )
         }
 
         cycles = list(simple_cycles(dmap.succ, skip_nodes=skip_nodes))
